@@ -449,17 +449,23 @@ pub struct Probe<S: State> {
     pub model: Arc<Mutex<Model>>,
     /// optional observer called with every (params, score)
     pub scores: Arc<Mutex<Vec<Option<f64>>>>,
+    /// unwind out of the optimiser (payload NonFiniteStop) at the first proposal that holds a parameter which is not a
+    /// finite number; the caller then repeats the run with `steps` = that proposal's number, see props/c08.rs
+    pub stop_on_nonfinite: bool,
 }
+
+/// number of the proposal (1-based) that held a non-finite parameter
+pub struct NonFiniteStop(pub u64);
 
 impl<S: State> Probe<S> {
     pub fn new(inner: S, kt_zero: bool) -> Probe<S> {
-        Probe { inner, model: Arc::new(Mutex::new(Model::new(kt_zero, true))), scores: Arc::new(Mutex::new(vec![])) }
+        Probe { inner, model: Arc::new(Mutex::new(Model::new(kt_zero, true))), scores: Arc::new(Mutex::new(vec![])), stop_on_nonfinite: false }
     }
 }
 
 impl<S: State> Clone for Probe<S> {
     fn clone(&self) -> Self {
-        Probe { inner: self.inner.clone(), model: self.model.clone(), scores: self.scores.clone() }
+        Probe { inner: self.inner.clone(), model: self.model.clone(), scores: self.scores.clone(), stop_on_nonfinite: self.stop_on_nonfinite }
     }
 }
 impl<S: State> fmt::Debug for Probe<S> {
@@ -497,6 +503,12 @@ impl<S: State> ToSVG for Probe<S> {
 impl<S: State> State for Probe<S> {
     fn score(&self) -> Option<f64> {
         let params = params_of_state(&self.inner);
+        if self.stop_on_nonfinite && params.iter().any(|p| !p.is_finite()) {
+            let n = self.scores.lock().unwrap_or_else(|e| e.into_inner()).len() as u64;
+            if n >= 1 {
+                std::panic::panic_any(NonFiniteStop(n));
+            }
+        }
         let ret = self.inner.score();
         {
             let mut m = self.model.lock().unwrap_or_else(|e| e.into_inner());
